@@ -149,8 +149,12 @@ def run_size(ctx):
             # compressed messages: size() serialises and counts, consistent by construction
             continue
         if ss.freeze() != ws.freeze():
-            ctx.violate("size.write-agree", f"{key}|mismatch",
-                        f"{a.name}: size() = {ss.show()}  but write_into_vec emits  {ws.show()}", sfn["file"], sfn["line"])
+            # one report per differing component, keyed by the component and both values (a second, different mismatch in the same
+            # container is a different instance)
+            from ..sizeexpr import se_diff
+            for comp, sv, wv in se_diff(ss, ws) or [("whole", ss.show(), ws.show())]:
+                ctx.violate("size.write-agree", f"{key}|mismatch|{comp}|size={sv}|written={wv}",
+                            f"{a.name}: in {comp}: size() counts {sv}, write_into_vec emits {wv}   (size() = {ss.show()}; written = {ws.show()})", sfn["file"], sfn["line"])
         if n <= 4:
             ctx.sample({"container": a.name, "rust": p["rust"], "size": ss.show(), "written": ws.show()})
     ctx.rule("size.self-field", n_self, floor=10, note="members declared `= self.size`: written value = own size() minus the (constant) bytes up to and including the member")
